@@ -219,9 +219,13 @@ func r10_9(c *Ctx, rule string) {
 	lit := fw.lit
 	x := c.explorer(lit)
 	// the stack: a captured slice of visitedDir
+	// (a captured variable, or a field of a captured state object)
 	isStackCell := func(v ssa.Value) bool {
-		fv, ok := v.(*ssa.FreeVar)
-		return ok && strings.HasSuffix(eng.TypeStr(fv.Type()), "[]fsutil.visitedDir")
+		switch v.(type) {
+		case *ssa.FreeVar, *ssa.FieldAddr:
+			return strings.HasSuffix(eng.TypeStr(v.Type()), "*[]fsutil.visitedDir")
+		}
+		return false
 	}
 	pushesIn := func(f *ssa.Function) bool {
 		found := false
@@ -234,12 +238,60 @@ func r10_9(c *Ctx, rule string) {
 		})
 		return found
 	}
+	// a deferred literal may push only when a flag variable is set (`defer
+	// func() { if push { stack = append(stack, dir) } }()` registered up
+	// front, `push = ...` where the push used to be registered): then setting
+	// the flag to true is the push
+	flagOf := func(f *ssa.Function) string {
+		flag := ""
+		eng.Instrs(f, func(in ssa.Instruction) {
+			st, ok := in.(*ssa.Store)
+			if !ok || !isStackCell(st.Addr) {
+				return
+			}
+			eng.InstrsShallow(f, func(i2 ssa.Instruction) {
+				iff, isIf := i2.(*ssa.If)
+				if !isIf {
+					return
+				}
+				id := c.P.LoadedCell(iff.Cond)
+				if id == "" {
+					return
+				}
+				for _, site := range eng.LiftTo(f, st) {
+					if t := iff.Block().Succs[0]; t == site.Block() || t.Dominates(site.Block()) {
+						flag = id
+					}
+				}
+			})
+		})
+		return flag
+	}
+	// flag cell -> the address the callback itself uses for it
+	flags := map[string]ssa.Value{}
+	var flagDefers []*ssa.Defer
+	eng.InstrsShallow(lit, func(in ssa.Instruction) {
+		if d, ok := in.(*ssa.Defer); ok {
+			if mc, ok := d.Call.Value.(*ssa.MakeClosure); ok {
+				if f, ok := mc.Fn.(*ssa.Function); ok && pushesIn(f) {
+					if id := flagOf(f); id != "" {
+						for _, bnd := range mc.Bindings {
+							if c.P.CellID(bnd) == id {
+								flags[id] = bnd
+								flagDefers = append(flagDefers, d)
+							}
+						}
+					}
+				}
+			}
+		}
+	})
 	isPush := func(in ssa.Instruction) bool {
 		switch v := in.(type) {
 		case *ssa.Defer:
 			if mc, ok := v.Call.Value.(*ssa.MakeClosure); ok {
 				if f, ok := mc.Fn.(*ssa.Function); ok {
-					return pushesIn(f)
+					return pushesIn(f) && flagOf(f) == ""
 				}
 			}
 		case *ssa.Store:
@@ -289,7 +341,42 @@ func r10_9(c *Ctx, rule string) {
 		as[k] = true
 	}
 	// deferred pushes of a literal test the directory flag themselves
-	hit, und := c.SuccessAvoiding(lit, nil, as, nil, isPush)
+	ex := c.explorer(lit)
+	ex.Assume = as
+	// a flag-guarded deferred push happens when the defer was registered on
+	// the path and its flag is true at the return
+	const deferred = "u:push-deferred"
+	ex.Barrier = func(in ssa.Instruction, st *eng.State) bool {
+		if isPush(in) {
+			return true
+		}
+		for _, d := range flagDefers {
+			if in == ssa.Instruction(d) {
+				st.Facts[deferred] = true
+			}
+		}
+		return false
+	}
+	ex.Target = func(in ssa.Instruction, st *eng.State) bool {
+		if !ex.IsSuccessReturn(in, st) {
+			return false
+		}
+		if st.Facts[deferred] {
+			for _, addr := range flags {
+				if tv, known := ex.CellTruth(addr, st); known && tv {
+					return false
+				}
+			}
+		}
+		return true
+	}
+	ex.StopAtTarget = true
+	hits := ex.Run()
+	und := ex.Exhausted
+	var hit *eng.Hit
+	if len(hits) > 0 {
+		hit = &hits[0]
+	}
 	switch {
 	case und:
 		c.R.Undecided(rule, c.name(lit)+"/visited-directory-always-pushed", c.P.Pos(lit.Pos()), "state limit")
@@ -324,7 +411,8 @@ func r10_10(c *Ctx, rule string) {
 			}
 			return c.DerivesFrom(call.Call.Args[0], func(y ssa.Value) bool { return y == ssa.Value(nw) }, 6)
 		}
-		hit, und := c.SuccessAvoiding(nf, nw, map[string]bool{"(" + ek + "==nil)": true}, nil, isScan)
+		// (patternmatcher.New returns a matcher whenever it returns no error)
+		hit, und := c.SuccessAvoiding(nf, nw, map[string]bool{"(" + ek + "==nil)": true, "(" + c.reg(nw) + "#0==nil)": false}, nil, isScan)
 		con := fmt.Sprintf("%s/matcher#%d/patterns-scanned", c.name(nf), i+1)
 		switch {
 		case und:
